@@ -81,7 +81,7 @@ def main():
             sess += part
             run.note('population_' + label, n)
         docs.selftest_session(next(s for s in sess if len(s['log']) > 10 and 'main' in s['tags']))
-    docs.validate_sessions(run, sess)
+    docs.validate_sessions(run, sess, relevant=docs.relevant_for(run.pid))
     run.evaluations = sum(1 for s in sess for e in s['log'] if e['ev'] == 'call') + len(toks)
     for s in sess:
         if 'writer-automaton-tokens' in s['tags'] or set(s['tags']) & {'chord', 'non-kern', 'split'}:
